@@ -170,8 +170,12 @@ type prod struct {
 }
 
 type note struct {
-	T, R     int64
-	seq      int // drawn after NotifyNewTransactions returned
+	T, R int64
+	// seq is drawn just before NotifyNewTransactions is called: a production recorded earlier
+	// certainly started before the notification was sent (it is "in flight" for it); one recorded
+	// later either started after the send or at the very same virtual instant, and counts as a
+	// block produced after the notification (the oracle is lenient only for such exact ties).
+	seq      int
 	returned bool
 	ref      Notif
 }
@@ -243,13 +247,12 @@ func execute(sc Scenario, withNotifs bool, dir string) (tr *trace) {
 				return
 			}
 			idx := len(tr.notes)
-			tr.notes = append(tr.notes, note{T: now(), ref: ref})
+			tr.seq++
+			tr.notes = append(tr.notes, note{T: now(), seq: tr.seq, ref: ref})
 			tr.outstanding++
 			tr.mu.Unlock()
 			m.NotifyNewTransactions()
 			tr.mu.Lock()
-			tr.seq++
-			tr.notes[idx].seq = tr.seq
 			tr.notes[idx].R = now()
 			tr.notes[idx].returned = true
 			tr.outstanding--
@@ -541,24 +544,40 @@ func checkLazy(sc Scenario, tr *trace, out *[]problem) {
 			continue
 		}
 		justified := false
-		prevNotified := false
-		lo := int64(-1)
-		if i > 0 {
-			lo = ps[i-1].S
-		}
+		last := int64(-1) // latest notification before block i started
 		for _, n := range tr.notes {
 			if n.T >= p.S && n.T <= q.S {
 				justified = true
 			}
-			if n.T < p.S && n.T >= lo {
-				prevNotified = true
+			if n.T < p.S && n.T > last {
+				last = n.T
 			}
+		}
+		// Root-cause class: the latest earlier notification was answered by block f, and every
+		// block from f to i came a full idle interval after its predecessor (the shape of blocks
+		// triggered by the idle timer): the extra block is the late echo of that notification.
+		prevNotified := false
+		for _, strict := range []bool{false, true} { // a tie between notification and start is read both ways
+			if last < 0 {
+				break
+			}
+			f := 0
+			for f < i && (ps[f].S < last || (strict && ps[f].S == last)) {
+				f++
+			}
+			chain := true
+			for k := f; k <= i; k++ {
+				if k > 0 && ps[k].S-ps[k-1].S < idle {
+					chain = false
+				}
+			}
+			prevNotified = prevNotified || chain
 		}
 		if justified {
 			continue
 		}
 		if prevNotified {
-			*out = append(*out, problem{7, "C17/lazy/extra-block-after-notified-block", fmt.Sprintf("block %d started at %s, only %s after block %d (idle interval %s), with no notification since block %d started at %s; the only earlier notification had already been answered by block %d", i+1, fmtNs(q.S), fmtNs(q.S-p.S), i, fmtNs(idle), i, fmtNs(p.S), i)})
+			*out = append(*out, problem{7, "C17/lazy/extra-block-after-notified-block", fmt.Sprintf("block %d started at %s, only %s after block %d (idle interval %s), with no notification since block %d started at %s; the latest earlier notification (at %s) had already been answered by an idle-timer block", i+1, fmtNs(q.S), fmtNs(q.S-p.S), i, fmtNs(idle), i, fmtNs(p.S), fmtNs(last))})
 		} else {
 			*out = append(*out, problem{6, "C17/lazy/spurious-block", fmt.Sprintf("block %d started at %s, only %s after block %d (idle interval %s), with no notification at all since block %d started", i+1, fmtNs(q.S), fmtNs(q.S-p.S), i, fmtNs(idle), i)})
 		}
